@@ -511,6 +511,12 @@ func writeStreamingPacket(conn net.Conn, buf []byte) (int, error) {
 
 	n, err := conn.Write(bufCopy)
 	if err != nil {
+		// Part of the frame is on the wire: whatever followed would be read as the rest of
+		// it. This stream cannot carry packets any more.
+		if n > 0 {
+			_ = conn.Close()
+		}
+
 		return 0, err
 	}
 
